@@ -195,6 +195,110 @@ def readers_replay(vals):
     return kinds, READERS[m], readers_judge(kinds, m)
 
 
+TYPE_EXTRA = ["V<sizeof...(Ts)> v;", "V<1 + sizeof...(Ts), int> v;", "decltype(static_cast<const T&>(t)) v;", "typename decltype(new Foo)::element_type v;",
+              "template <typename... Ts> Pack<sizeof...(Ts)> make(Ts... ts);", "void f() noexcept(noexcept(g(1 << 2)));", "#pragma omp parallel for num_threads(4)\n",
+              "struct S { int b : sizeof(int) * 2; int a[3 + 4] = {1, 2}; };", "template <auto N = sizeof(unsigned int)> struct Z {};"]
+
+
+def _walk_tokens(o, out, seen):
+    import dataclasses
+    from cxxheaderparser.types import Token
+
+    if isinstance(o, Token):
+        out.append(o)
+    elif dataclasses.is_dataclass(o) and not isinstance(o, type):
+        if id(o) in seen:
+            return
+        seen.add(id(o))
+        for f in dataclasses.fields(o):
+            _walk_tokens(getattr(o, f.name), out, seen)
+    elif isinstance(o, (list, tuple)):
+        for x in o:
+            _walk_tokens(x, out, seen)
+    elif isinstance(o, dict):
+        for x in o.values():
+            _walk_tokens(x, out, seen)
+
+
+def types_judge(src):
+    """premise of the spacing analysis: every Token a result exposes carries the type the lexer gives its text (tokfmt spaces by type)"""
+    from cxxheaderparser.simple import parse_string
+    from cxxheaderparser.errors import CxxParseError
+
+    try:
+        d = parse_string(src)
+    except CxxParseError:
+        return None
+    toks = []
+    _walk_tokens(d, toks, set())
+    for t in toks:
+        try:
+            lx = real_lex(t.value)
+        except Exception as e:  # noqa
+            return f"token text {t.value!r} of the result does not lex: {e}"
+        if len(lx) != 1 or lx[0].type != t.type:
+            return f"token {t.value!r} is exposed with type {t.type!r}; the lexer gives {[x.type for x in lx]}"
+    return None
+
+
+def types_source(ch):
+    from . import c14
+
+    k = ch.pick(len(c14.POSITIONS) + 1)
+    if k == len(c14.POSITIONS):
+        return TYPE_EXTRA[ch.pick(len(TYPE_EXTRA))]
+    pos = c14.POSITIONS[k]
+    expr = c14.EXPRS[ch.pick(len(c14.EXPRS))]
+    if not c14.applicable(pos, expr, c14.lex_values(expr)):
+        return None
+    return pos[1].format(E=expr)
+
+
+def h_types(c0: int, c1: int) -> bool:
+    """
+    post: _
+    """
+    from crosshair.tracers import NoTracing
+    from ..chrun import Chooser
+
+    with NoTracing():
+        src = types_source(Chooser([c0, c1]))
+        if src is None:
+            return True
+        if TWIN:
+            return False
+        return types_judge(src) is None
+
+
+def check_types(ck, tier):
+    from .. import chrun
+    from ..chrun import Chooser
+    from . import c14
+
+    pool = chrun.make_pool()
+    try:
+        tw = chrun.run(__name__, "h_types", [(0, 0)], timeout=60, globs=dict(TWIN=True), pool=pool)
+        chrun.record(ck, tw, "token types reachability twin", expect="refuted")
+        r = chrun.run(__name__, "h_types", [(a,) for a in range(len(c14.POSITIONS) + 1)], timeout=150 if tier == "quick" else 600, globs=dict(TWIN=False), pool=pool)
+        chrun.record(ck, r, "premise: every Token exposed in a result carries the type the lexer gives its text (value positions x expressions, decltype, sizeof..., pragma)",
+                     bound=f"{len(c14.POSITIONS)} positions x {len(c14.EXPRS)} expressions + {len(TYPE_EXTRA)} sources")
+    finally:
+        pool.shutdown()
+    seen = set()
+    for shard, args, kw, msg in r.counterexamples:
+        vals = list(shard) + list(args)
+        src = types_source(Chooser(vals, prefix=()))
+        bad = types_judge(src) if src else None
+        ck.traces += 1
+        if bad is None:
+            raise HarnessError(f"token-type counterexample did not reproduce: {msg}")
+        if bad[:40] in seen:
+            continue
+        seen.add(bad[:40])
+        body = ("from vf.props import c16\n" f"bad = c16.types_judge({src!r})\nprint(bad)\nsys.exit(1 if bad else 0)\n")
+        ck.violation(f"{bad} (source {src!r})", ck.write_replay(body), key=dict(kind="token-type"))
+
+
 def check_readers(ck, tier):
     from .. import chrun
 
@@ -243,6 +347,7 @@ def run(tier):
     ck.out_of_scope(f"fusions that need token texts longer than {nmax} code points in total", "sequences whose mis-lexing needs four or more tokens")
 
     check_readers(ck, tier)
+    check_types(ck, tier)
     t = time.time()
     npairs, nstr, npieces = rx.validate_translator(model, tier, ck.seed)
     ck.traces += npairs
